@@ -48,6 +48,7 @@ def run(prog, rep):
     t1(prog, rep)
     t2(prog, rep)
     t3(prog, rep)
+    t5(prog, rep)
     t4(prog, rep)
 
 
@@ -212,6 +213,32 @@ def t3(prog, rep):
     sp = body.calls_to("astria_core::sequencerblock::v1::block::SequencerBlock::split_for_celestia")
     rep.check(len(sp) == 1 and body.root(sp[0].args[0]) == "block", "T3", "split-this-block",
               "extend_from_sequencer_block does not split the block it was given", body.describe())
+
+
+def t5(prog, rep):
+    """T5 (K1) the per-namespace lists of a submission only grow: several rollups can share one
+    Celestia namespace (it is derived from the first 10 bytes of the rollup id), so the map
+    `rollup_data_for_namespace` may only be reached through `entry(ns).or_default()` (append)
+    while blocks are added - an `insert`, `remove`, `clear` or assignment replaces what other
+    rollups / earlier blocks accumulated under that namespace."""
+    ALLOWED = {"entry", "len", "is_empty", "iter", "into_iter", "values", "keys", "clone", "get",
+               "contains_key", "checked_add", "default", "new"}
+    n = 0
+    for b in prog.bodies:
+        if not b.owner.startswith(CV + "Input::") or "tests" in b.owner:
+            continue
+        for c in b.calls:
+            if c.expn or not c.args:
+                continue
+            if b.root(c.args[0]).replace("~mut", "") != "self.rollup_data_for_namespace":
+                continue
+            n += 1
+            sn = short_name(c.callee)
+            rep.check(sn in ALLOWED, "T5", rep.nth(f"{short_name(b.owner)}|namespace-lists:{sn}"),
+                      f"{b.owner} calls `{sn}` on the per-namespace rollup data map: lists "
+                      "accumulated for that namespace (by another rollup sharing it, or by earlier "
+                      "blocks) would be replaced or dropped", c.where())
+    rep.floor("T5", n, 2, "accesses of rollup_data_for_namespace in Input")
 
 
 def generic_arg(c):
